@@ -106,6 +106,19 @@ pub fn respell(a: &[u8], win: bool, rng: &mut Rng) -> Vec<Vec<u8>> {
         v.push(a.iter().map(|&b| if b == b'\\' { b'/' } else if b == b'/' { b'\\' } else { b }).collect());
         v.push(a.iter().map(|&b| if b.is_ascii_lowercase() { b.to_ascii_uppercase() } else { b.to_ascii_lowercase() }).collect());
     }
+    if win && a.len() >= 4 && enc_sep(true).contains(&a[0]) && enc_sep(true).contains(&a[1]) && (a[2] == b'?' || a[2] == b'.') && enc_sep(true).contains(&a[3]) {
+        // only the four marker bytes re-spelled (what follows is byte-identical): exactly one of the
+        // eight spellings of `\\?\` switches normalisation off
+        for m in 0..8u8 {
+            let mut x = a.to_vec();
+            x[0] = if m & 1 == 0 { b'\\' } else { b'/' };
+            x[1] = if m & 2 == 0 { b'\\' } else { b'/' };
+            x[3] = if m & 4 == 0 { b'\\' } else { b'/' };
+            if x != a {
+                v.push(x);
+            }
+        }
+    }
     // "/./" after a random separator
     let idx: Vec<usize> = a.iter().enumerate().filter(|(_, b)| enc_sep(win).contains(b)).map(|(i, _)| i).collect();
     if !idx.is_empty() {
@@ -240,6 +253,18 @@ pub fn bases(win: bool, tier: &str, seed: u64) -> Vec<Vec<u8>> {
     for _ in 0..(if t { 60 } else { 12 }) {
         v.push(long_random_path(&mut rng, win));
     }
+    if win {
+        for sd in WIN_SEEDS {
+            v.push(sd.to_vec());
+            let mut x = sd.to_vec();
+            x.extend_from_slice(b"\\n");
+            v.push(x);
+        }
+        v.extend(marker_unc_seeds());
+        let dp = dict_win_paths();
+        let step = if t { 1 } else { 3 };
+        v.extend(dp.into_iter().step_by(step));
+    }
     // every byte value in the drive-letter position of a BARE `X:` base (what counts as a drive decides
     // whether a separator is inserted)
     if win {
@@ -266,6 +291,11 @@ pub fn names(tier: &str) -> Vec<Vec<u8>> {
     let mut v = strings_b(b".ab", if tier_is_thorough(tier) { 5 } else { 4 });
     for x in NAME_POOL {
         v.push(x.to_vec());
+    }
+    v.extend(dict_words());
+    for c in low_byte_chars() {
+        v.push(format!("foo{}bar", c).into_bytes());
+        v.push(format!("n.{}z", c).into_bytes());
     }
     // names around every small power of two and beyond (length- and chunk-dependent code), with and
     // without a dot, with the dot at different distances from the end, with a byte >= 0x80
@@ -294,11 +324,19 @@ pub fn exts(tier: &str) -> Vec<Vec<u8>> {
     for n in [8usize, 15, 16, 17, 33, 64, 257] {
         v.push((0..n).map(|k| b'a' + (k % 26) as u8).collect());
     }
+    for c in low_byte_chars().into_iter().step_by(3) {
+        v.push(format!("{}ld", c).into_bytes());
+    }
     v
 }
 
 pub fn utf8_dom(tier: &str, seed: u64) -> Vec<Vec<u8>> {
     let t = tier_is_thorough(tier);
+    let mut lb: Vec<Vec<u8>> = Vec::new();
+    for c in low_byte_chars() {
+        lb.push(format!("d/foo{}bar", c).into_bytes());
+        lb.push(format!("d\\a.{}z/", c).into_bytes());
+    }
     let alpha: Vec<&[u8]> = vec![b"/", b"\\", b".", b":", b"a", "é".as_bytes(), "日".as_bytes(), "😀".as_bytes(), b"?", b"C"];
     let mut v = strings(&alpha, if t { 5 } else { 4 });
     let tails = strings(&[b"\\", b".", "é".as_bytes(), "日".as_bytes(), b"a"], if t { 4 } else { 3 });
@@ -333,6 +371,7 @@ pub fn utf8_dom(tier: &str, seed: u64) -> Vec<Vec<u8>> {
         }
         v.push(x);
     }
+    v.extend(lb);
     v.extend(extras().into_iter().filter(|x| std::str::from_utf8(x).is_ok()));
     dedup_keep_order(v)
 }
